@@ -353,6 +353,15 @@ UNI_CHARS = ('aAkKsSiI' 'ıİſKßẞµμΜσςΣǅǆǄéÉöÖñÑ' 'ͅιΙι' 
              '٣１²_ -0z' 'ÿŸ' 'ǰ' 'ŉ' 'ẛṡ')
 
 
+def uni_range(r):
+    """a range between two of the interesting characters; under IGNORECASE the model scans the BMP part
+    of a range linearly (like `_optimize_charset` does at compile time), so keep that part small"""
+    while True:
+        a, b = sorted([r.choice(UNI_CHARS), r.choice(UNI_CHARS)])
+        if min(ord(b), 0xFFFF) - ord(a) <= 3000:
+            return a, b
+
+
 def uni_pattern(r):
     def ch():
         c = r.choice(UNI_CHARS)
@@ -365,12 +374,12 @@ def uni_pattern(r):
     if kind == 2:
         return '[^%s%s]' % (ch(), ch())
     if kind == 3:
-        a, b = sorted([r.choice(UNI_CHARS), r.choice(UNI_CHARS)])
+        a, b = uni_range(r)
         if a in '-^]\\ ' or b in '-^]\\ ':
             return '[a-z]'
         return '[%s-%s]' % (a, b)
     if kind == 4:
-        a, b = sorted([r.choice(UNI_CHARS), r.choice(UNI_CHARS)])
+        a, b = uni_range(r)
         if a in '-^]\\ ' or b in '-^]\\ ':
             return '[^A-Z]'
         return '[%s-%s\\d]' % (a, b) if r.random() < 0.5 else '[^%s-%s]' % (a, b)
